@@ -161,8 +161,66 @@ def judge(entry, payload_desc, res, exc, elapsed_note=None, site=None):
     return [("escaped:%s@%s" % (name, frame), "%s raised %s for %s" % (entry, core.fmt_exc(exc), payload_desc))]
 
 
+def check_late_registration(case):
+    """'A failed construction leaves registries ... unchanged' observed through behaviour, not through the registry maps: content of a
+    type that is not registered is refused; the type is registered afterwards; the same content must now parse to the registered
+    class.  (State kept outside STIX2_OBJ_MAPS -- a memo of failed lookups -- is invisible to a comparison of the maps.)"""
+    import stix2
+    from stix2 import properties as P
+    from stix2 import registry
+    kind, ver = case["late"], case["ver"]
+    name = "x-verif-c17late-%s-%s" % (kind[:3], ver.replace(".", ""))
+    doc = {"type": name, "prop_a": "v"}
+    if kind == "object":
+        doc.update({"id": "%s--%s" % (name, U17), "created": "2020-01-01T00:00:00.000Z", "modified": "2020-01-01T00:00:00.000Z"})
+    elif ver == "2.1":
+        doc["id"] = "%s--%s" % (name, U17)
+    if ver == "2.1":
+        doc["spec_version"] = "2.1"
+    snap = registry_snapshot()
+    fails = []
+    try:
+        for how in case.get("early", ["parse", "parse-version", "parse-text", "parse-custom", "bundle", "memory-add"]):
+            if how == "bundle":
+                b = {"type": "bundle", "id": "bundle--" + U17, "objects": [dict(doc)]}
+                core.guarded(stix2.parse, b, allow_custom=False)
+            elif kind == "observable" and ver == "2.0":
+                core.guarded(stix2.parse_observable, dict(doc), allow_custom=(how == "parse-custom"), version=ver)
+            else:
+                call(how, dict(doc), ver)
+        mod = stix2.v20 if ver == "2.0" else stix2.v21
+        props = [("prop_a", P.StringProperty(required=True))]
+        cls0 = type("C17Late", (object,), {})
+        if kind == "object":
+            cls = mod.CustomObject(name, props)(cls0)
+        elif ver == "2.1":
+            cls = mod.CustomObservable(name, props, ["prop_a"])(cls0)
+        else:
+            cls = mod.CustomObservable(name, props)(cls0)
+        if kind == "observable" and ver == "2.0":
+            res, exc = core.guarded(stix2.parse_observable, dict(doc), allow_custom=False, version=ver)
+        else:
+            res, exc = core.guarded(stix2.parse, dict(doc), allow_custom=False, version=ver)
+        if exc is not None or type(res) is not cls:
+            fails.append(("refused-parse-left-state:%s" % kind, "content of %r was refused while the type was unregistered; after registering it as a %s %s the same content gives %s" % (
+                name, ver, kind, core.fmt_exc(exc) if exc is not None else type(res).__name__)))
+        elif kind == "object" or ver == "2.1":
+            res2, exc2 = core.guarded(stix2.parse, json.dumps(doc), allow_custom=False)
+            if exc2 is not None or type(res2) is not cls:
+                fails.append(("refused-parse-left-state:%s" % kind, "... and as JSON text without a named version: %s" % (core.fmt_exc(exc2) if exc2 is not None else type(res2).__name__)))
+    finally:
+        for v, maps in snap.items():
+            for cat, mp in maps.items():
+                cur = registry.STIX2_OBJ_MAPS[v][cat]
+                cur.clear()
+                cur.update(mp)
+    return fails
+
+
 def check_case(case):
     ensure_custom()
+    if "late" in case:
+        return check_late_registration(case)
     ver = case.get("ver", "2.1")
     entry = case["entry"]
     if "nest" in case:
@@ -417,6 +475,16 @@ def run(ctx):
                     if fails is not None:
                         ctx.note(case, True, ["custom-class-member", "entry:" + entry], fp=core.fingerprint([ver, base["type"], holder, key, j, entry]))
                         ctx.handle(case, fails)
+    ctx.collect_only = False
+
+    # refused content of an unregistered type, the type registered afterwards, the content again (finite)
+    ctx.collect_only = True
+    for kind in ("object", "observable"):
+        for ver in ("2.0", "2.1"):
+            for early in (["parse"], ["parse-version"], ["parse-text"], ["parse-custom"], ["bundle"], ["memory-add"], ["parse", "parse-version", "parse-text", "parse-custom", "bundle", "memory-add"]):
+                case = {"late": kind, "ver": ver, "early": early}
+                ctx.note(case, True, ["late-registration:%s/%s" % (kind, ver)], fp=core.fingerprint([kind, ver, early]))
+                ctx.handle(case, check_late_registration(case))
     ctx.collect_only = False
 
     # every STIX 2.0 observable type as a standalone object (with partners for its references), maximal and random shapes
